@@ -86,19 +86,22 @@ def spec_first_match(S):
     return res is expected
 
 
-c.ensures(spec_first_match, "returns-first-matching-else-first-anonymous")
-c.ensures(lambda S: state_is(S, "ERROR") if gu_user(S) is None else True, "unknown-login-is-ERROR")
+c.ensures(spec_first_match, "returns-first-matching-else-first-anonymous", props=["C03"])
+c.ensures(lambda S: state_is(S, "ERROR") if gu_user(S) is None else True, "unknown-login-is-ERROR", props=["C03"])
 c.ensures(
     lambda S: True if not state_is(S, "PASSWORD_REQUIRED") else (S.it.unbox(gu_user(S).fields["password"]) is not None and S.it.unbox(gu_user(S).fields["login"]) is not None),
     "PASSWORD_REQUIRED-only-for-named-user-with-password",
+    props=["C03"],
 )
 c.ensures(
     lambda S: True if not state_is(S, "OK") else (S.it.unbox(gu_user(S).fields["login"]) is None or S.it.unbox(gu_user(S).fields["password"]) is None),
     "OK-only-for-anonymous-or-passwordless",
+    props=["C03"],
 )
 c.ensures(
     lambda S: True if not state_is(S, "OK") else S.it.unbox(gu_user(S).fields["password"]) is None,
     "OK-only-when-the-account-has-no-password",
+    props=["C03"],
 )
 
 
